@@ -61,6 +61,7 @@ def random_assignment(spec: dict[str, Any], rng: Any, k: int) -> dict[str, list[
     node_ids = [n["id"] for n in spec["nodes"] if n["op"] not in ("call_loopy",)]
     input_ids = [i["id"] for i in spec["inputs"]]
     density = rng.choice([0.15, 0.3, 0.6])
+    shared_named = [False]
     targeted = rng.random() < 0.35
     byid = {n["id"]: n for n in spec["nodes"]}
     users: dict[int, int] = {}
@@ -85,8 +86,18 @@ def random_assignment(spec: dict[str, Any], rng: Any, k: int) -> dict[str, list[
         if strat:
             tags.append([strat, None])
         if rng.random() < 0.25:
-            tags.append(["prefix", f"pfx{k}_{nid}"] if rng.random() < 0.5
-                        else ["named", f"nm{k}_{nid}"])
+            # names are mostly unique; sometimes several nodes share the base name "t" (one
+            # Named("t") at most, any number of PrefixNamed("t")): generated names must still
+            # be distinct
+            if rng.random() < 0.35:
+                if not shared_named[0] and rng.random() < 0.4:
+                    shared_named[0] = True
+                    tags.append(["named", "t"])
+                else:
+                    tags.append(["prefix", "t"])
+            else:
+                tags.append(["prefix", f"pfx{k}_{nid}"] if rng.random() < 0.5
+                            else ["named", f"nm{k}_{nid}"])
         if rng.random() < 0.4:
             tags.append(["vtag", rng.randrange(100)])
         if rng.random() < 0.4:
